@@ -82,6 +82,10 @@ def fix_winding(mesh):
 
     if flipped > 0:
         mesh.faces = faces
+        # the normals of re-wound faces point the other way now: drop
+        # them explicitly as a caller may be holding the cache lock
+        mesh._cache.delete("face_normals")
+        mesh._cache.delete("vertex_normals")
 
     log.debug("flipped %d/%d edges", flipped, len(mesh.faces) * 3)
 
@@ -135,6 +139,8 @@ def fix_inversion(mesh, multibody=False):
             mesh.faces[flip] = np.fliplr(mesh.faces[flip])
             if normals is not None:
                 mesh.face_normals = normals
+            # vertex normals of the flipped bodies are not transported
+            mesh._cache.delete("vertex_normals")
 
     elif mesh.volume < 0.0:
         mesh.invert()
